@@ -31,6 +31,13 @@ Theorem C16_underline_re_is_source_pattern : forall C s,
 Proof. exact underline_re_python. Qed.
 Print Assumptions C16_underline_re_is_source_pattern.
 
+(* the format templates and keywords found in the source of tb_frame_str, get_formatted,
+   _repeated_str, get_formatted_exception_only, _format_final_exc_line, to_string and from_string
+   on this run are the literals of the model *)
+Theorem C16_source_templates : source_templates_ok = true.
+Proof. exact source_templates. Qed.
+Print Assumptions C16_source_templates.
+
 (* ---- first half: text <-> ParsedException --------------------------------------------------------- *)
 (* from_string recovers every field of every well-formed structured traceback from its
    text, with or without position-marker lines *)
